@@ -60,12 +60,11 @@ Proof.
   unfold pcons; cbn [fst List.length]. destruct (fst e'); [congruence|cbn; lia].
 Qed.
 
-(* ===== the round-trip theorem, any separator ===== *)
-Theorem unflatten_flatten_paths sep r :
-  wf_rec r = true -> paths_ok sep r = true -> no_sentinel_rec r = true -> no_intkeyed_rec r = true ->
-  unflatten sep (flatten sep r) = r.
+(* Flatten emits exactly the separator-joined (path, leaf) entries *)
+Lemma flatten_paths_eq sep r :
+  wf_rec r = true -> paths_ok sep r = true -> flatten sep r = map (keyed sep []) (ents_of_kids r).
 Proof.
-  intros Hwf Hp Hns Hni.
+  intros Hwf Hp.
   pose proof (rec_paths_nodup r Hwf) as Hpaths.
   unfold paths_ok in Hp. rewrite forallb_forall in Hp.
   assert (Hkeys : NoDup (map fst (map (keyed sep []) (ents_of_kids r)))).
@@ -81,7 +80,73 @@ Proof.
   { intros [k v] Hin. destruct (first_entry r k v Hin) as (e' & _ & Hin').
     destruct (path_ok_parts _ _ (Hp _ Hin')) as (_ & Hnil & _). cbn in Hnil.
     apply orb_false_iff in Hnil. destruct Hnil as [Hk _]. cbn. destruct k; [discriminate|congruence]. }
-  rewrite (flatten_ents sep r Hknz Hkeys).
+  exact (flatten_ents sep r Hknz Hkeys).
+Qed.
+
+Lemma ents_leaf_scalar : forall v e, In e (ents v) -> is_coll (snd e) = false.
+Proof.
+  induction v as [v IH] using jv_size_ind. intros e Hin. rewrite ents_eq in Hin.
+  destruct (is_nil (kids v)) eqn:En.
+  - destruct Hin as [<-|[]]. now destruct v.
+  - unfold ents_of_kids in Hin. apply in_flat_map in Hin. destruct Hin as (kx & Hkx & Hin).
+    apply in_map_iff in Hin. destruct Hin as (e' & <- & He'). cbn [pcons snd]. now apply (IH kx Hkx).
+Qed.
+
+(* the flattened record holds no map and no array: it can be written by a format that cannot nest *)
+Theorem flatten_is_flat sep r :
+  wf_rec r = true -> paths_ok sep r = true ->
+  forallb (fun kv => negb (is_coll (snd kv))) (flatten sep r) = true.
+Proof.
+  intros Hwf Hp. rewrite (flatten_paths_eq sep r Hwf Hp). apply forallb_forall. intros kv Hin.
+  apply in_map_iff in Hin. destruct Hin as (e & <- & He). unfold keyed; cbn [snd].
+  unfold ents_of_kids in He. apply in_flat_map in He. destruct He as (kx & _ & He).
+  apply in_map_iff in He. destruct He as (e' & <- & He'). cbn [pcons snd].
+  now rewrite (ents_leaf_scalar _ _ He').
+Qed.
+
+(* records without collections pass Flatten untouched; records whose keys do not contain the separator and whose
+   values are not the sentinel strings pass Unflatten untouched *)
+Lemma flatten_noop sep r : existsb (fun kv => is_coll (snd kv)) r = false -> flatten sep r = r.
+Proof. intros H. unfold flatten. now rewrite H. Qed.
+
+Lemma unflatten_noop_gen sep : forall r o,
+  NoDup (map fst o ++ map fst r) ->
+  (forall kv, In kv r -> containsb sep (fst kv) = false /\ ut (snd kv) = snd kv) ->
+  fold_left (unflatten_step sep) r (o, []) = (o ++ r, []).
+Proof.
+  induction r as [|[k v] r IH]; intros o Hnd H; cbn [fold_left]; [now rewrite app_nil_r|].
+  destruct (H (k, v) (or_introl eq_refl)) as [Hc Hu]. cbn [fst snd] in Hc, Hu.
+  assert (Hs : unflatten_step sep (o, []) (k, v) = (o ++ [(k, v)], [])).
+  { unfold unflatten_step. cbv beta iota zeta. rewrite Hc. cbn [negb]. rewrite Hu.
+    rewrite jput_absent; [reflexivity|]. intros Hin. apply (NoDup_app_disj _ _ _ Hnd Hin). now left. }
+  rewrite Hs. rewrite IH.
+  - now rewrite <- app_assoc.
+  - rewrite map_app, <- app_assoc. exact Hnd.
+  - intros kv Hin. apply H. now right.
+Qed.
+
+Lemma unflatten_noop sep r :
+  nodupb (map fst r) = true ->
+  forallb (fun kv => negb (containsb sep (fst kv)) && no_sentinel_node (snd kv)) r = true ->
+  unflatten sep r = r.
+Proof.
+  intros Hnd H. unfold unflatten. rewrite (unflatten_noop_gen sep r []).
+  - reflexivity.
+  - cbn [map app]. now apply nodupb_NoDup.
+  - intros [k v] Hin. rewrite forallb_forall in H. specialize (H _ Hin). cbn [fst snd] in *.
+    apply andb_true_iff in H. destruct H as [H1 H2]. split; [now apply negb_true_iff|].
+    destruct v as [s|t|b| |m|l]; try reflexivity. cbn [no_sentinel_node] in H2.
+    apply andb_true_iff in H2. destruct H2 as [Ha Hb]. apply negb_true_iff in Ha, Hb. cbn [ut]. now rewrite Ha, Hb.
+Qed.
+
+(* ===== the round-trip theorem, any separator ===== *)
+Theorem unflatten_flatten_paths sep r :
+  wf_rec r = true -> paths_ok sep r = true -> no_sentinel_rec r = true -> no_intkeyed_rec r = true ->
+  unflatten sep (flatten sep r) = r.
+Proof.
+  intros Hwf Hp Hns Hni.
+  rewrite (flatten_paths_eq sep r Hwf Hp).
+  unfold paths_ok in Hp. rewrite forallb_forall in Hp.
   unfold unflatten. rewrite fold_left_map.
   rewrite (fold_left_ext_in _ (fun st e => (pstep_o (fst st) e, astep (snd st) e))).
   2:{ intros [o a] [p leaf] Hin. unfold keyed; cbn [fst snd app]. apply step_tie. exact (Hp _ Hin). }
